@@ -510,6 +510,8 @@ func checkUncheckedAsserts(p *Prog, r *Result, pkg *packages.Package, rel string
 				r.OK("R06c", key, ta.Pos(), why)
 			} else if why2, ok2 := assertByReflectTag(pkg, fd, ta); ok2 {
 				r.OK("R06c", key, ta.Pos(), why2)
+			} else if why3, ok3 := assertByPoolInvariant(p, pkg, rel, ta); ok3 {
+				r.OK("R06c", key, ta.Pos(), why3)
 			} else {
 				r.Bad("R06c", key, ta.Pos(), "type assertion without comma-ok and no dominating test or field invariant establishes the dynamic type ("+why+"; "+why2+"): a value of another type panics")
 			}
@@ -1086,4 +1088,108 @@ var c06Controls = []Control{
 		Mutate: ctlReplace("Parser.next", "p.bsp >= w && bytes.HasPrefix(p.bs[p.bsp-w:], p.stopAt)", "len(p.bs) > 0 && bytes.HasPrefix(p.bs[p.bsp-w:], p.stopAt)", 0)},
 	{Name: "reset-forgets-buriedHdocs", Rule: "R06g", WantKey: "Parser.buriedHdocs", File: "syntax/parser.go",
 		Mutate: ctlReplace("Parser.reset", "p.heredocs, p.buriedHdocs = p.heredocs[:0], 0", "p.heredocs = p.heredocs[:0]", 0)},
+}
+
+// assertByPoolInvariant handles the sync.Pool idiom `pool.Get().(*T)`: the pool is a package-level variable whose New
+// function returns only values of static type *T, and every Put on that pool in the package passes a *T.
+func assertByPoolInvariant(p *Prog, pkg *packages.Package, rel string, ta *ast.TypeAssertExpr) (string, bool) {
+	info := pkg.TypesInfo
+	call, ok := ast.Unparen(ta.X).(*ast.CallExpr)
+	if !ok {
+		return "", false
+	}
+	callee := calleeOf(info, call)
+	if callee == nil || qualName(callee) != "sync.(Pool).Get" {
+		return "", false
+	}
+	se, ok := ast.Unparen(call.Fun).(*ast.SelectorExpr)
+	if !ok {
+		return "", false
+	}
+	poolID, ok := ast.Unparen(se.X).(*ast.Ident)
+	if !ok {
+		return "", false
+	}
+	poolObj, ok := info.ObjectOf(poolID).(*types.Var)
+	if !ok || poolObj.Parent() != pkg.Types.Scope() {
+		return "", false
+	}
+	want := info.TypeOf(ta.Type)
+	// the New function of the pool's composite literal
+	newOK := false
+	for _, f := range pkg.Syntax {
+		ast.Inspect(f, func(n ast.Node) bool {
+			vs, ok := n.(*ast.ValueSpec)
+			if !ok {
+				return true
+			}
+			for i, nm := range vs.Names {
+				if info.Defs[nm] != poolObj || i >= len(vs.Values) {
+					continue
+				}
+				lit := compositeOf(vs.Values[i])
+				if lit == nil {
+					continue
+				}
+				for _, el := range lit.Elts {
+					kv, ok := el.(*ast.KeyValueExpr)
+					if !ok {
+						continue
+					}
+					if k, ok := kv.Key.(*ast.Ident); !ok || k.Name != "New" {
+						continue
+					}
+					fl, ok := ast.Unparen(kv.Value).(*ast.FuncLit)
+					if !ok {
+						continue
+					}
+					all, any := true, false
+					ast.Inspect(fl.Body, func(m ast.Node) bool {
+						if rs, ok := m.(*ast.ReturnStmt); ok && len(rs.Results) == 1 {
+							any = true
+							if t := info.TypeOf(rs.Results[0]); t == nil || !types.Identical(t, want) {
+								all = false
+							}
+						}
+						return true
+					})
+					newOK = all && any
+				}
+			}
+			return true
+		})
+	}
+	if !newOK {
+		return "", false
+	}
+	putsOK := true
+	for _, fd := range p.AllFuncDecls(rel) {
+		if fd.Body == nil {
+			continue
+		}
+		ast.Inspect(fd.Body, func(n ast.Node) bool {
+			c, ok := n.(*ast.CallExpr)
+			if !ok || len(c.Args) != 1 {
+				return true
+			}
+			if cal := calleeOf(info, c); cal == nil || qualName(cal) != "sync.(Pool).Put" {
+				return true
+			}
+			s2, ok := ast.Unparen(c.Fun).(*ast.SelectorExpr)
+			if !ok {
+				return true
+			}
+			if id, ok := ast.Unparen(s2.X).(*ast.Ident); !ok || info.ObjectOf(id) != poolObj {
+				return true
+			}
+			if t := info.TypeOf(c.Args[0]); t == nil || !types.Identical(t, want) {
+				putsOK = false
+			}
+			return true
+		})
+	}
+	if !putsOK {
+		return "", false
+	}
+	return fmt.Sprintf("sync.Pool idiom: %s's New returns only %s and every Put on it passes one", poolObj.Name(), types.TypeString(want, nil)), true
 }
